@@ -3769,6 +3769,16 @@ namespace bloch::runtime {
                         owner->staticStorage[staticField->offset] = asDeclared(rhs, staticField->type);
                 }
             } else if (obj.type == Value::Type::ClassRef && obj.classRef) {
+                // 'super.f = v' writes the inherited instance field of the current object
+                std::shared_ptr<Object> self =
+                    dynamic_cast<SuperExpression*>(memAssign->object.get()) ? currentThisObject()
+                                                                           : nullptr;
+                RuntimeField* inherited =
+                    self ? findInstanceField(obj.classRef, memAssign->member) : nullptr;
+                if (inherited && inherited->offset < self->fields.size()) {
+                    self->fields[inherited->offset] = asDeclared(rhs, inherited->type);
+                    return rhs;
+                }
                 auto [field, owner] = staticFieldWithOwner(obj.classRef, memAssign->member);
                 if (field && owner && field->offset < owner->staticStorage.size())
                     owner->staticStorage[field->offset] = asDeclared(rhs, field->type);
